@@ -24,12 +24,12 @@ func init() {
 		Rule: "token-level generated expression texts that ignore typing: any of the 31 function names with 0-4 arguments of any kind, all 13 axis names incl. namespace, variables, every operator between arbitrary operands, predicates and steps applied to non-node-set primaries, zero-argument forms; only texts Compile accepts are executed, each through Select (drained) and Evaluate (node-set results drained) on documents with hostile values, from element, attribute, text, comment and root contexts. round() is excluded from random generation (known finding KF-1) but pinned as a witness. " +
 			"Non-trivial: the text was accepted by Compile and has >= 4 tokens; distinct by (text, mode, context kind).",
 		Assume:        []string{"a panic whose value implements runtime.Error is never raised deliberately by the package", "known finding KF-1: round() yields a Go int"},
-		MinNontrivial: tierN(40000, 500000),
+		MinNontrivial: tierN(40000, 1000000),
 		Required:      []string{"accepted", "rejected", "outcome:value", "outcome:deliberate-abort", "result:bool", "result:number", "result:string", "result:nodeset"},
 		Families: []Family{
 			witnessFamily("C15"),
-			{Name: "tok", N: tierN(300000, 4000000), Run: c15Tok},
-			{Name: "typed", N: tierN(80000, 1000000), Run: c15Typed},
+			{Name: "tok", N: tierN(300000, 15000000), Run: c15Tok},
+			{Name: "typed", N: tierN(80000, 4000000), Run: c15Typed},
 		},
 	})
 }
@@ -144,7 +144,7 @@ func init() {
 		Required:      []string{"damage:trunc-op", "damage:trunc-slash", "damage:trunc-[", "damage:trunc-(", "damage:trunc-quote", "damage:trunc-comma", "damage:del-]", "damage:del-)", "damage:del-quote", "damage:unknown-function", "damage:remove-args", "damage:unknown-axis", "damage:qname"},
 		Families: []Family{
 			witnessFamily("C17"),
-			{Name: "damage", N: tierN(40000, 500000), Run: c17Damage},
+			{Name: "damage", N: tierN(40000, 1000000), Run: c17Damage},
 		},
 	})
 }
